@@ -336,7 +336,7 @@ def calculate_avail_vmem(mems):
         slab_reclaimable = mems[b'SReclaimable:']
     except KeyError as err:
         debug(
-            f"{err.args[0]} is missing from /proc/meminfo; using an"
+            f"{err.args[0].decode()} is missing from /proc/meminfo; using an"
             " approximation for calculating available memory"
         )
         return fallback
